@@ -200,8 +200,9 @@ def decide(pid, tier, seed, plan, results, quals, wall):
         },
         'assumptions': plan.get('assumptions', []) + COMMON_ASSUMPTIONS,
     }
-    os.makedirs(os.path.join(VERIF, 'evidence'), exist_ok=True)
-    with open(os.path.join(VERIF, 'evidence', pid + '.json'), 'w') as f:
+    evdir = os.environ.get('PYVC_EVIDENCE_DIR') or os.path.join(VERIF, 'evidence')     # dev runs on scratch copies write elsewhere
+    os.makedirs(evdir, exist_ok=True)
+    with open(os.path.join(evdir, pid + '.json'), 'w') as f:
         json.dump(ev, f, indent=1, sort_keys=True)
     for l in lines:
         print(l)
@@ -242,7 +243,7 @@ def repo_sha():
 
 
 def write_replay(pid, o, bounded):
-    d = os.path.join(VERIF, 'replays', pid)
+    d = os.path.join(os.environ.get('PYVC_REPLAY_DIR') or os.path.join(VERIF, 'replays'), pid)
     os.makedirs(d, exist_ok=True)
     safe = ''.join(ch if ch.isalnum() or ch in '._-' else '_' for ch in o['name'])[-150:]
     path = os.path.join(d, safe + '.json')
